@@ -213,6 +213,8 @@ def index_hooks(m, cls):
                 return A.Obj('idx%d' % k, {'nodeType': D.ELEMENT, 'nodeName': 'Index', 'parentNode': None, 'ownerDocument': getattr(me, 'attrs', {}).get('ownerDocument'),
                                         'attributes': None, '_dom_childNodes': [], '__eqkey': ('idx', k), 'pages': [], 'key': [], 'sortkey': '',
                                         'isElementContentWhitespace': False}, cls=nested)
+            if fname.endswith('.getElementsByTagName') and len(args) == 1:
+                return []
             if fname == 'sorted' and len(args) == 1 and isinstance(args[0], list):
                 return list(args[0])          # the entries are handed over in collation order (R18.1 decides the order relation)
             if fname == 'unidecode' and len(args) == 1 and isinstance(args[0], str):
@@ -242,7 +244,11 @@ def r182_merge(chk, m):
         keys = [d.elem('key:%s' % k, eq='key:%s' % k) for k in path]
         node = d.elem('occ%d' % d.n)
         d.n += 1
-        return A.Obj('entry:%s' % '!'.join(path), {'key': keys, 'sortkey': list(path), 'type': typ, 'node': node, 'format': None})
+        fmt = None
+        if typ != 0:
+            fmt = d.elem('format%d-of-type-%d' % (d.n, typ))      # |see{..} / |seealso{..}: a fragment of its own per occurrence
+            fmt.attrs['source'] = '\\\\see{target%d}' % typ
+        return A.Obj('entry:%s' % '!'.join(path), {'key': keys, 'sortkey': list(path), 'type': typ, 'node': node, 'format': fmt})
 
     def shape(node):
         out = []
